@@ -333,7 +333,7 @@ func (c *vLateTCP) RemoteAddr() net.Addr               { return &net.TCPAddr{IP:
 // faked, harness-controlled clock): B's caller gets the TCP reply to B (or an error), never A's.
 func VerifH_C16_AbandonedFallbackThenNext() {
 	verifrt.Unwind(400)
-	verifrt.SchedBound(2)
+	verifrt.SchedBound(2 + verifrt.Tier) // thorough: one more deviation from the default schedule
 	verifrt.NoTimers()
 	verifrt.CtxNoExpiry = true
 	base := time.Unix(1700000000, 0)
